@@ -4,8 +4,12 @@
 (*  GEN_MODE = "all" : every behaviour of length GEN_DEPTH over the small per-image menus (exhaustive)*)
 (*  GEN_MODE = "sim" : for -simulate; the parameters of a new image are drawn at random from the big *)
 (*                     menus (RandomElement), so that one step has few successors                    *)
+(*  NegOffs = magnitudes of the negative offsets a new image can have in "sim" mode (an image in    *)
+(*            front of its parent: add_image -> validate() refuses, update_offsets repairs)          *)
 EXTENDS BinImage, Json, IOUtils
+CONSTANT NegOffs
 VARIABLES hist, done
+SimOffs == Offs \cup {0 - x : x \in NegOffs}
 Depth == atoi(IOEnv.GEN_DEPTH)
 Sim == IOEnv.GEN_MODE = "sim"
 GenNodes == atoi(IOEnv.GEN_NODES)
@@ -17,7 +21,7 @@ SmallMenu(n) == IF n = 1 THEN {[off |-> 0, size |-> s, al |-> a, bl |-> 0, pat |
 BigPats == {None, Ones, [kind |-> "zeros", b |-> <<>>], [kind |-> "inc", b |-> <<>>], [kind |-> "bytes", b |-> <<165>>],
             [kind |-> "bytes", b |-> <<18, 52>>], [kind |-> "bytes", b |-> <<1, 2, 3>>], [kind |-> "rand", b |-> <<>>]}
 GenNew == IF Sim
-          THEN \E off \in {RandomElement(Offs)} : \E size \in {RandomElement(Sizes)} : \E al \in {RandomElement(Aligns)} :
+          THEN \E off \in {RandomElement(SimOffs)} : \E size \in {RandomElement(Sizes)} : \E al \in {RandomElement(Aligns)} :
                \E bl \in {RandomElement(BinLens)} : \E pat \in {RandomElement(BigPats)} : New(off, size, al, DataOf(bl), pat)
           ELSE /\ act.a \in {"Init", "New"} /\ Len(forest) < GenNodes                  \* images are created first, then composed
                /\ \E m \in SmallMenu(Len(forest) + 1) : New(m.off, m.size, m.al, DataOf(m.bl), m.pat)
